@@ -4,6 +4,7 @@ import (
 	"encoding/json"
 	"fmt"
 	"go/types"
+	"math/rand"
 	"os"
 	"path/filepath"
 	"runtime"
@@ -441,3 +442,65 @@ func WriteJSON(path string, v interface{}) error {
 	}
 	return os.WriteFile(path, b, 0o644)
 }
+
+
+// ConcreteRun is the outcome of one concrete (random-input) execution of a harness in the engine.
+type ConcreteRun struct {
+	Draws     []*Draw
+	Failed    []string
+	Reached   []string
+	Panicked  bool
+	PanicMsg  string
+	Discarded bool   // an assumption did not hold for these inputs
+	Problem   string // unsupported construct etc.
+}
+
+// RunConcrete executes fn once with random concrete draws (no solver involved). Used for translator validation: the
+// same draws are then replayed natively and the observable outcomes (failed assertions, reached labels, panic)
+// must agree.
+func (e *Engine) RunConcrete(fn *ssa.Function, seed int64, opt Options) *ConcreteRun {
+	solver := &Solver{name: "none", in: nopWriteCloser{}, dead: true}
+	p := &Path{eng: e, solver: solver, facts: map[string]bool{}, reached: map[string]int{}, bounds: opt.Bounds,
+		maxSteps: e.MaxSteps * 4, env: map[string]string{}, notes: map[string]int{}, funcs: map[string]int{},
+		funcsSeen: map[*ssa.Function]struct{}{}, concrete: true, rng: rand.New(rand.NewSource(seed))}
+	i := &interpreter{prog: e.Prog, eng: e, path: p, globals: map[*ssa.Global]*value{}, initDone: map[*ssa.Package]bool{},
+		sizes: types.SizesFor("gc", "amd64"), ptrIDs: map[*value]int{}}
+	if rt := e.Prog.ImportedPackage("runtime"); rt != nil {
+		i.runtimeErrorString = rt.Type("errorString").Object().Type()
+	}
+	out := &ConcreteRun{}
+	func() {
+		defer func() {
+			if r := recover(); r != nil {
+				switch rv := r.(type) {
+				case pathAbort:
+					if rv.kind == abortAssume || rv.kind == abortInfeasible {
+						out.Discarded = true
+					} else {
+						out.Problem = rv.msg
+					}
+				case targetPanic:
+					out.Panicked = true
+					out.PanicMsg = i.panicString(rv)
+				case engineError:
+					out.Problem = "engine error: " + rv.msg
+				default:
+					out.Problem = fmt.Sprint(r)
+				}
+			}
+		}()
+		i.runMain(fn)
+	}()
+	out.Draws = p.draws
+	out.Failed = p.failed
+	for k := range p.reached {
+		out.Reached = append(out.Reached, k)
+	}
+	sort.Strings(out.Reached)
+	return out
+}
+
+type nopWriteCloser struct{}
+
+func (nopWriteCloser) Write(b []byte) (int, error) { return len(b), nil }
+func (nopWriteCloser) Close() error                { return nil }
